@@ -110,7 +110,7 @@ def jobs(tier, seed):
         if j['family'] in ('NT', 'NT-cash', 'hilo-boards', 'two-street-straddle', 'automation', 'rake', 'FixedLimitRazz', 'PO-2boards'):
             j.setdefault('opts', {})['show'] = (None, True, False)   # mucking is a legal operation too
         j.setdefault('state_cap', 400000 if thorough else 60000)
-        j.setdefault('time_cap', 600 if thorough else 40)
+        j.setdefault('time_cap', 1800 if thorough else 400)
     return out
 
 
